@@ -106,6 +106,7 @@ package tcplistener
 //@ extern func (s base.MessageReceiverSink) Flush()
 //@   flag counted
 //@   modifies everything
+//@   preserves util.NetConnWrapper.*
 //@   ghostset fevent := fevent + 1
 //@   ghostset lastsinkflush := fevent + 1
 //@   ghostset lastflushall := lastflushall
